@@ -372,3 +372,398 @@ PROPS["C14"] = Prop(
     "with the hashing model. non-trivial = non-empty query",
     assumptions=["boundaries strictly sorted < 2^64, size <= 2^63"],
 )
+
+
+# ------------------------------------------------------------------ protocol families (hashing)
+F_OUTBOARD = Family("outboard", "Run.RunProto", "run_outboard", "holds_outboard", lambda a, o: a[2] > 1024)
+F_ENCODE = Family("encode", "Run.RunProto", "run_encode", "holds_encode", lambda a, o: len(o) > 2 and o[2] > 0)
+F_DECODE = Family("decode", "Run.RunProto", "run_decode", "holds_decode", lambda a, o: len(o) > 11 and o[9] > 0)
+F_VALIDATE = Family("validate", "Run.RunProto", "run_validate", "holds_validate", lambda a, o: len(o) > 2)
+
+BLOB_SIZES = [0, 1, 1023, 1024, 1025, 2047, 2048, 2049, 3 * 1024, 4 * 1024 + 1, 5 * 1024 + 7, 8 * 1024, 8 * 1024 + 1,
+              13 * 1024 + 100, 16 * 1024, 23 * 1024 + 512, 31 * 1024 + 1]
+
+
+def gen_c03(tier, rng):
+    cases = []
+    sizes = BLOB_SIZES if tier == "quick" else BLOB_SIZES + [k * 512 for k in range(1, 65)] + [40 * 1024 + 3, 64 * 1024]
+    i = 0
+    for size in sizes:
+        for bs in range(0, 4 if tier == "quick" else 5):
+            for entry in range(0, 15):
+                kinds = (i % 4,) if tier == "quick" else (0, 1, 2, 3)
+                i += 1
+                for kind in kinds:
+                    cases.append(("outboard", [kind, rng.randrange(1, 1 << 40), size, bs, entry]))
+    return cases
+
+
+PROPS["C03"] = Prop(
+    [F_OUTBOARD], gen_c03,
+    "outboard: byte-size classes around chunk and group boundaries up to 32 KiB (quick) / 64 KiB plus every multiple of 512 up to "
+    "32 KiB (thorough) x block sizes 0..3/4 x 15 creation entry points (sync/fsm x pre/post x io/memory, create / create_sized / "
+    "init_from over a stale outboard / outboard() into pre-sized memory outboards / outboard_post_order writers) x contents "
+    "{random, constant, repeating chunk, chunk-index pattern}. Observed: root, stored bytes, load() of every node, plus the harness's own "
+    "comparison with blake3::hash and bao::encode::outboard. non-trivial = more than one chunk",
+    trusted=["blake3 1.8 hazmat subtree hashing = left-full tree over chunk chaining values (exercised by every case)",
+             "bao 0.12.1 as the reference for the block-size-0 pre-order outboard"],
+    assumptions=["model runs with real bytes use blobs <= 64 KiB and bs <= 4; theorems quantify over all sizes and bs"],
+)
+
+
+M64 = (1 << 64) - 1
+
+
+def std_queries(n, rng, k_random=3):
+    """representative queries for a blob of n chunks: all, single chunks, two ranges, cut through a group,
+    past the end, u64::MAX.., hole + past-the-end, random subsets of boundaries in 0..n+2"""
+    qs = [[0], [0, 1], [n - 1, n], [n, n + 1], [n + 5], [M64], [0, n], [0, n + 1]]
+    if n >= 2:
+        qs += [[1, 2], [0, 1, n - 1, n], [1], [0, n - 1]]
+    if n >= 3:
+        qs += [[1, n - 1], [0, 1, 2, 3], [0, 1, n + 2, n + 3], [1, 2, n, n + 9]]
+    if n >= 5:
+        qs += [[2, 5], [3, 4], [0, 2, 4, 5]]
+    for _ in range(k_random):
+        qs.append(rand_query(rng, n))
+    out, seen = [], set()
+    for q in qs:
+        q = [x for x in q if 0 <= x <= M64]
+        if all(q[i] < q[i + 1] for i in range(len(q) - 1)) and tuple(q) not in seen:
+            seen.add(tuple(q))
+            out.append(q)
+    return out
+
+
+ENC_SIZES = [0, 1, 1024, 1025, 2048, 2049, 3 * 1024, 4 * 1024 + 1, 5 * 1024 + 7, 8 * 1024, 8 * 1024 + 1, 13 * 1024 + 100, 16 * 1024]
+
+
+def seed(rng):
+    return rng.randrange(1, 1 << 40)
+
+
+def gen_encode_honest(tier, rng, encoders, exhaustive_chunks):
+    """intact stores: every encoder flavour, every store kind"""
+    cases = []
+    sizes = ENC_SIZES if tier == "quick" else ENC_SIZES + [k * 512 for k in range(1, 41)] + [31 * 1024 + 1]
+    for size in sizes:
+        n = nchunks(size)
+        for bs in range(0, 4 if tier == "quick" else 5):
+            if n <= exhaustive_chunks:
+                qs = [q for q in all_subsets(range(0, n + 3))]
+            else:
+                qs = std_queries(n, rng, 3 if tier == "quick" else 10)
+            for q in qs:
+                enc = rng.choice(encoders) if (tier == "quick" and len(qs) > 12) else None
+                for e in ([enc] if enc is not None else encoders):
+                    cases.append(("encode", [rng.randrange(0, 3), seed(rng), size, bs, e, rng.randrange(0, 4), 0] + q))
+    return cases
+
+
+def gen_c04(tier, rng):
+    return gen_encode_honest(tier, rng, [0, 1, 4], 3 if tier == "quick" else 5)
+
+
+def gen_c05(tier, rng):
+    cases = []
+    sizes = [1, 1025, 2049, 4 * 1024 + 1, 5 * 1024 + 7, 8 * 1024, 13 * 1024 + 100] if tier == "quick" else ENC_SIZES[1:] + [31 * 1024 + 1]
+    for size in sizes:
+        n = nchunks(size)
+        for bs in range(0, 3 if tier == "quick" else 4):
+            oblen = 64 * (max(1, -(-n // (1 << bs))) - 1)
+            for q in std_queries(n, rng, 1)[: (6 if tier == "quick" else 30)]:
+                cors = []
+                stride = 997 if tier == "quick" else 257
+                for pos in list(range(0, size, stride)) + [size - 1]:
+                    cors.append([0, pos, 1 + rng.randrange(255)])
+                for slot in range(oblen // 64):
+                    for half in (0, 32):
+                        cors.append([1, slot * 64 + half + rng.randrange(32), 1 + rng.randrange(255)])
+                for _ in range(3):
+                    k = rng.randrange(2, 5)
+                    c = []
+                    seenp = set()
+                    for _ in range(k):
+                        w = rng.randrange(0, 2) if oblen else 0
+                        pos = rng.randrange(0, size if w == 0 else oblen)
+                        if (w, pos) not in seenp:
+                            seenp.add((w, pos))
+                            c += [w, pos, 1 + rng.randrange(255)]
+                    cors.append(c)
+                if tier == "quick":
+                    cors = rng.sample(cors, min(len(cors), 8))
+                for c in cors:
+                    e = rng.choice([0, 1, 4])
+                    ok = rng.randrange(0, 4)
+                    cases.append(("encode", [0, seed(rng), size, bs, e, ok, len(c) // 3] + c + q))
+    return cases
+
+
+PROPS["C04"] = Prop(
+    [F_ENCODE], gen_c04,
+    "encode (intact stores): byte-size classes up to 16 KiB (quick) / every multiple of 512 up to 20 KiB and 31 KiB+1 (thorough) x bs 0..3/4 x "
+    "every boundary subset in 0..nchunks+2 for blobs of <= 3/5 chunks, representative + random queries beyond, x {sync, fsm, item-stream} "
+    "validating encoders x 4 store kinds; output compared with the recursive spec enc_spec (pruning rule). The harness's bao slice "
+    "comparison families are listed separately. non-trivial = non-empty output",
+    trusted=["Spec/EncSpec.v enc_spec is my statement of the pruned bao format; tied to bao 0.12.1 at block size 0 by the bao family"],
+)
+PROPS["C05"] = Prop(
+    [F_ENCODE], gen_c05,
+    "encode (corrupted stores): blobs up to 13 KiB (quick) / 31 KiB (thorough) x bs 0..2/3 x representative queries x corruption sets "
+    "{single data byte at a stride and at the end, each half of each stored pair, random 2-4 position combinations} x three validating "
+    "encoders x four store kinds; expected result = first corrupted plan unit in the order of the honest encoding. non-trivial = non-empty output",
+)
+
+
+# ------------------------------------------------------------------ decode family generators
+def py_mem(q, c):
+    import bisect
+    i = bisect.bisect_right(q, c)
+    return i % 2 == 1
+
+
+def py_sel(q, size):
+    n = nchunks(size)
+    past = (len(q) % 2 == 1) or (len(q) > 0 and q[-1] > n)
+    return lambda c: c < n and (py_mem(q, c) or (c == n - 1 and past))
+
+
+def honest_layout(size, bs, q):
+    """(kind, id, nbytes) of every item of the honest encoding (python mirror of Spec/EncSpec.v, sizes only)"""
+    sel = py_sel(q, size)
+    out = []
+
+    def nbytes(a, b):
+        return min(b * 1024, size) - min(a * 1024, size)
+
+    def rec(a, b):
+        cs = range(a, b)
+        if not any(sel(c) for c in cs):
+            return
+        n = b - a
+        if n <= 1:
+            out.append((1, a, nbytes(a, b)))
+            return
+        cap = 1 << (n - 1).bit_length()
+        half = cap // 2
+        if all(sel(c) for c in cs) and cap <= (1 << bs):
+            out.append((1, a, nbytes(a, b)))
+            return
+        out.append((0, a + half - 1, 64))
+        rec(a, a + half)
+        rec(a + half, b)
+
+    rec(0, nchunks(size))
+    return out
+
+
+def dec_case(kind, sd, size, bs, claimed, driver, sink, q, bs_s=None, size2=0, seed2=0, qs=None, ops=()):
+    bs_s = bs if bs_s is None else bs_s
+    qs = q if qs is None else qs
+    return ("decode", [kind, sd, size, bs, claimed, driver, sink, bs_s, size2, seed2, len(q)] + list(q) + [len(qs)] + list(qs) + list(ops))
+
+
+def drivers_and_sinks(rng, full):
+    ds = [(0, 0), (1, 0)]
+    sinks = range(0, 5) if full else (rng.randrange(0, 5),)
+    for s in sinks:
+        ds.append((2, s))
+        ds.append((3, s))
+    return ds
+
+
+def gen_c02(tier, rng):
+    cases = []
+    sizes = ENC_SIZES if tier == "quick" else ENC_SIZES + [k * 512 for k in range(1, 33)] + [31 * 1024 + 1]
+    exh = 3 if tier == "quick" else 5
+    for size in sizes:
+        n = nchunks(size)
+        for bs in range(0, 4 if tier == "quick" else 5):
+            qs = list(all_subsets(range(0, n + 3))) if n <= exh else std_queries(n, rng, 3 if tier == "quick" else 12)
+            for q in qs:
+                full = (tier == "thorough") or (n <= 2 and len(q) <= 2)
+                dss = drivers_and_sinks(rng, full)
+                if tier == "quick" and not full:
+                    dss = rng.sample(dss, 2)
+                for (d, sk) in dss:
+                    cases.append(dec_case(rng.randrange(0, 3), seed(rng), size, bs, size, d, sk, q))
+    return cases
+
+
+def stream_positions(layout, tier, rng, dense_limit):
+    L = sum(x[2] for x in layout)
+    pos = set()
+    off = 0
+    for (_, _, nb) in layout:
+        for d in (-1, 0, 1):
+            if 0 <= off + d < L:
+                pos.add(off + d)
+        if nb >= 64:
+            pos.add(off + 31)
+            pos.add(off + 32)
+            pos.add(off + nb // 2)
+        off += nb
+    if L:
+        pos.add(L - 1)
+    if L <= dense_limit:
+        pos.update(range(0, L))
+    else:
+        pos.update(range(0, L, 211 if tier == "quick" else 37))
+    return sorted(pos), L
+
+
+def gen_c09(tier, rng):
+    cases = []
+    sizes = [0, 1, 1024, 1025, 2049, 3 * 1024] if tier == "quick" else [0, 1, 1024, 1025, 2048, 2049, 3 * 1024, 4 * 1024 + 1, 5 * 1024 + 7, 8 * 1024 + 1]
+    for size in sizes:
+        n = nchunks(size)
+        for bs in range(0, 3):
+            for q in std_queries(n, rng, 0)[: (4 if tier == "quick" else 12)]:
+                if not q:
+                    continue
+                lay = honest_layout(size, bs, q)
+                pos, L = stream_positions(lay, tier, rng, 300 if tier == "quick" else 2200)
+                sd = seed(rng)
+                for p in pos:
+                    d = rng.randrange(0, 4)
+                    sk = rng.randrange(0, 2)
+                    cases.append(dec_case(0, sd, size, bs, size, d, sk, q, ops=[1, p, 0, 0]))
+                    d = rng.randrange(0, 4)
+                    cases.append(dec_case(0, sd, size, bs, size, d, sk, q, ops=[2, p, 1 + rng.randrange(255), 0]))
+    return cases
+
+
+def gen_c01(tier, rng):
+    cases = []
+    sizes = [1, 1025, 2049, 3 * 1024, 5 * 1024 + 7, 8 * 1024 + 1] if tier == "quick" else ENC_SIZES[1:]
+    contents = (0, 1, 2)
+    for size in sizes:
+        n = nchunks(size)
+        for bs in range(0, 3 if tier == "quick" else 4):
+            for q in std_queries(n, rng, 1)[: (5 if tier == "quick" else 20)]:
+                if not q:
+                    continue
+                kind = rng.choice(contents)
+                sd = seed(rng)
+                lay = honest_layout(size, bs, q)
+                pos, L = stream_positions(lay, tier, rng, 0)
+                if tier == "quick":
+                    pos = rng.sample(pos, min(len(pos), 6))
+                muts = []
+                for p in pos:
+                    muts.append([2, p, 1 + rng.randrange(255), 0])
+                    muts.append([1, p, 0, 0])
+                muts.append([4, seed(rng), rng.randrange(1, 200), 0])        # extended with random bytes
+                muts.append([5, 64, 0, 0])                                    # extended with zeros
+                off = 0
+                leaf_offs = []
+                for (k, _, nb) in lay:
+                    if k == 0:
+                        muts.append([3, off, 0, 0])                           # hash halves swapped
+                    else:
+                        leaf_offs.append((off, nb))
+                    off += nb
+                if len(leaf_offs) >= 2:
+                    (o1, n1), (o2, n2) = leaf_offs[0], leaf_offs[-1]
+                    muts.append([7, o1, o2, min(n1, n2)])                     # leaf replayed from another offset
+                    muts.append([7, o2, o1, min(n1, n2)])
+                muts.append([1, 0, 0, 0, 4, seed(rng), max(L, 64), 0])        # random stream
+                muts.append([1, 0, 0, 0, 5, max(L, 64), 0, 0])                # all-zero stream
+                # items spliced in from the honest encoding of a different blob (same geometry)
+                if lay:
+                    i = rng.randrange(len(lay))
+                    o = sum(x[2] for x in lay[:i])
+                    muts.append([6, o, lay[i][2], o])
+                    muts.append([1, o, 0, 0, 8, o, L, 0])                     # honest prefix then the other blob's tail
+                for m in muts:
+                    d, sk = rng.choice(drivers_and_sinks(rng, False))
+                    cases.append(dec_case(kind, sd, size, bs, size, d, sk, q, size2=size, seed2=sd + 1, ops=m))
+                # stream for a different query / block size, and a wrong claimed size
+                q2 = rng.choice(std_queries(n, rng, 1)) or [0]
+                d, sk = rng.choice(drivers_and_sinks(rng, False))
+                cases.append(dec_case(kind, sd, size, bs, size, d, sk, q, qs=q2))
+                cases.append(dec_case(kind, sd, size, bs, size, d, sk, q, bs_s=(bs + 1) % 4))
+                for claimed in (size + 1, max(0, size - 1), size + 1024, (n - 1) * 1024 if n > 1 else 2048):
+                    if claimed != size:
+                        d2 = rng.randrange(0, 4)
+                        cases.append(dec_case(kind, sd, size, bs, claimed, d2, rng.randrange(0, 2), q))
+    return cases
+
+
+def gen_c16(tier, rng):
+    cases = []
+    sizes = [0, 1, 1024, 1025, 2048, 2049, 3 * 1024, 4 * 1024 + 1, 8 * 1024, 8 * 1024 + 1, 12 * 1024]
+    if tier == "quick":
+        sizes = [0, 1, 1024, 1025, 2049, 4 * 1024 + 1, 8 * 1024]
+    big = sorted({(1 << k) + d for k in range(10, 64) for d in (-1, 0, 1)} - {(1 << 63) + 1})
+    for size in sizes:
+        n = nchunks(size)
+        for bs in (0, 2, 4) if tier == "thorough" else (0, 2):
+            sd = seed(rng)
+            for claimed in [c for c in sizes if c != size] + (big if tier == "thorough" else rng.sample(big, 12)):
+                nc = nchunks(claimed)
+                for q in ([0], [M64], [0, 1, nc + 2, nc + 3]):
+                    d = rng.randrange(0, 2) if claimed > 64 * 1024 else rng.randrange(0, 4)
+                    sk = rng.randrange(0, 2)
+                    # honest encoding for the true geometry
+                    cases.append(dec_case(0, sd, size, bs, claimed, d, sk, q))
+                    if claimed <= 16 * 1024:
+                        # honest encoding of the padded / truncated blob for the claimed geometry, and a mixture
+                        cases.append(dec_case(0, sd, size, bs, claimed, d, sk, q, size2=claimed, seed2=sd, ops=[1, 0, 0, 0, 8, 0, 1 << 20, 0]))
+                        cases.append(dec_case(0, sd, size, bs, claimed, d, sk, q, size2=claimed, seed2=sd, ops=[1, 64, 0, 0, 8, 64, 1 << 20, 0]))
+    return cases
+
+
+def gen_c20(tier, rng):
+    cases = []
+    for size in ([0, 1, 1024, 1025, 3000, 8 * 1024 + 1] if tier == "quick" else [0, 1, 1024, 1025, 2048, 3000, 5 * 1024, 8 * 1024 + 1, 16 * 1024]):
+        n = nchunks(size)
+        for bs in range(0, 3):
+            for q in std_queries(n, rng, 1)[: (6 if tier == "quick" else 20)]:
+                sd = seed(rng)
+                lay = honest_layout(size, bs, q)
+                L = sum(x[2] for x in lay)
+                for d in (0, 1):
+                    cases.append(dec_case(0, sd, size, bs, size, d, 0, q))
+                    # every prefix of the decode step sequence: cut after each item, and inside each item
+                    off = 0
+                    for (_, _, nb) in lay:
+                        cases.append(dec_case(0, sd, size, bs, size, d, 0, q, ops=[1, off, 0, 0]))
+                        cases.append(dec_case(0, sd, size, bs, size, d, 0, q, ops=[2, off + nb // 2, 7, 0]))
+                        off += nb
+                    cases.append(dec_case(0, sd, size, bs, size, d, 0, q, ops=[4, seed(rng), 100, 0]))
+    return cases
+
+
+DEC_ASSUME = ["model runs with real bytes use blobs <= 32 KiB and bs <= 4; theorems quantify over all sizes and bs"]
+PROPS["C02"] = Prop(
+    [F_DECODE], gen_c02,
+    "decode (honest streams from the independent reference encoder): byte-size classes up to 16 KiB / 31 KiB x bs 0..3/4 x every boundary "
+    "subset in 0..nchunks+2 for blobs of <= 3/5 chunks (incl. the empty query), representative + random queries beyond, x {sync iterator, "
+    "fsm machine, sync decode_ranges, fsm decode_ranges} x five sink kinds. non-trivial = non-empty stream",
+    assumptions=DEC_ASSUME)
+PROPS["C09"] = Prop(
+    [F_DECODE], gen_c09,
+    "decode: every truncation length and every single-byte alteration position of the honest stream for streams <= 300 bytes (quick) / 2200 bytes "
+    "(thorough), strided beyond plus every item boundary +-1 and the middle of each hash; blobs of 0..3 / 0..9 chunks, bs 0..2, sync and fsm, "
+    "iterator and decode_ranges drivers. non-trivial = non-empty stream",
+    assumptions=DEC_ASSUME)
+PROPS["C01"] = Prop(
+    [F_DECODE], gen_c01,
+    "decode (hostile streams): honest encodings with a byte changed / truncated at item boundaries +-1 and strided positions, extended with "
+    "random or zero bytes, hash halves swapped at every parent, leaves replayed from another offset, items and tails spliced in from the honest "
+    "encoding of a different blob, whole streams for a different query / block size, random and all-zero streams, wrong claimed sizes; contents "
+    "{random, constant, repeating chunk}; four drivers, five sinks. non-trivial = non-empty stream",
+    assumptions=DEC_ASSUME)
+PROPS["C16"] = Prop(
+    [F_DECODE], gen_c16,
+    "decode with a wrong claimed size: all pairs (true, claimed) over byte-size classes up to 12 KiB, claimed sizes 2^k, 2^k+-1 up to 2^63, "
+    "bs {0,2,4}, size-proof queries {all, u64::MAX.., hole + past-the-end}, streams {honest for the true geometry, honest encoding of the padded / "
+    "truncated blob for the claimed geometry, mixture}. non-trivial = non-empty stream",
+    assumptions=DEC_ASSUME)
+PROPS["C20"] = Prop(
+    [F_DECODE], gen_c20,
+    "decode with accessor trace: hash() and tree() of the fsm decoder before every step and after an error, tree() of the sync iterator, "
+    "reader position at Done; blobs of 0, 1, 1024, 1025, 3000, 8 KiB+1 bytes (more in thorough) x bs 0..2 x queries x {honest, cut after every "
+    "item, altered inside every item, extended}. non-trivial = non-empty stream",
+    assumptions=DEC_ASSUME)
